@@ -5,6 +5,7 @@ import WD.Driver.C17
 import WD.Driver.C16
 import WD.Driver.C10
 import WD.Driver.C13
+import WD.Driver.Obs
 open WD.Driver WD.Proto
 
 def handle (line : String) : String :=
@@ -14,6 +15,7 @@ def handle (line : String) : String :=
   | "subcreated" :: ts => c14Line "subcreated" ts
   | "rekey" :: ts => c14Line "rekey" ts
   | "dq" :: ts => c17Line ts
+  | "obs" :: ts => obsLine ts
   | "reg" :: ts => c13Line ts
   | "poll" :: ts => c10Line ts
   | "sq" :: ts => c16Line ts
